@@ -190,7 +190,11 @@ func H_C08_scale_clone() {
 		src = NewObject("a", l, "b", 1)
 	}
 	before := hSnapAny(src)
+	// should an implementation copy long lists with helper goroutines, they run under one of two fixed schedules:
+	// after the spawning loop has finished, or each at once (no effect on code that spawns nothing)
+	verifSchedAll(-nondetIntRange(1, 2))
 	cl := hCloneAny(src)
+	verifAssert(verifRaces() == 0, "Clone of a long container is free of data races")
 	verifAssert(hExact(before, hSnapAny(cl)), "the clone of a long container has the same content")
 	var co, cc []any
 	hContainers(src, &co)
